@@ -350,6 +350,8 @@ impl C03 {
                 let mut file = built.file.clone();
                 let mut corrupted_from: Option<(u64, u64)> = None; // flat range that must not be delivered
                 let mut rp = ReadPlan::plain();
+                // (compressed offset of a block, its flat offset, bytes to read, is it the corrupt one)
+                let mut recovery: Vec<(u64, u64, u64, bool)> = Vec::new();
                 match &p.fault {
                     MtFault::SourceErr { at } => {
                         let at = at % (file.len() + 1);
@@ -362,6 +364,14 @@ impl C03 {
                         let data_members: Vec<_> = built.flat.members.iter().filter(|m| m.ulen > 0).collect();
                         if !data_members.is_empty() {
                             let m = data_members[j % data_members.len()];
+                            // after the error has surfaced the caller goes on: seeks to the start of
+                            // the corrupt block itself (must fail again or give nothing), of its
+                            // neighbours and of the first block (must deliver their bytes)
+                            let ci = j % data_members.len();
+                            for t in [Some(ci), ci.checked_add(1).filter(|&x| x < data_members.len()), ci.checked_sub(1), Some(0)].into_iter().flatten() {
+                                let tm = data_members[t];
+                                recovery.push((tm.cpos, tm.ustart, tm.ulen.min(300), t == ci));
+                            }
                             let s = m.cpos as usize;
                             let e = s + m.csize as usize;
                             match how % 3 {
@@ -398,8 +408,42 @@ impl C03 {
                     let src = YieldRead(SimRead::new(file, rp));
                     let mut r = Mt(bgzf::io::MultithreadedReader::new(src));
                     let h = c02::run_reader_history_with(&mut r, &flat, &index, &ops2, tells, corrupted_from);
+                    // recovery after a surfaced corruption error: the reader object stays in use
+                    let mut rec: Option<String> = None;
+                    if matches!(&h, Err((c, _, _)) if c == "unexpected-error") {
+                        use c02::BgzfUnderTest as _;
+                        for &(cpos, ustart, n, is_corrupt) in &recovery {
+                            let Ok(vp) = bgzf::VirtualPosition::try_from((cpos, 0u16)) else { continue };
+                            if let Err(e) = r.seek_v(vp) {
+                                if !is_corrupt {
+                                    rec = Some(format!("after the error, seek to the intact block at {cpos} failed: {e}"));
+                                    break;
+                                }
+                                continue;
+                            }
+                            let mut buf = vec![0u8; n as usize];
+                            match r.read_exact(&mut buf) {
+                                Ok(()) if is_corrupt => {
+                                    rec = Some(format!("after the error, a seek to the corrupt block at {cpos} and read_exact({n}) delivered data"));
+                                    break;
+                                }
+                                Ok(()) => {
+                                    if buf[..] != flat.data[ustart as usize..(ustart + n) as usize] {
+                                        rec = Some(format!("after the error, seek to the intact block at {cpos} + read_exact({n}) delivered bytes that are not the block's (flat offset {ustart})"));
+                                        break;
+                                    }
+                                }
+                                Err(e) if !is_corrupt => {
+                                    // the block holds at least n bytes: nothing of the corrupt block is needed
+                                    rec = Some(format!("after the error, seek to the intact block at {cpos} + read_exact({n}) failed: {e}"));
+                                    break;
+                                }
+                                Err(_) => {}
+                            }
+                        }
+                    }
                     let f = if fin { r.0.finish().map(|_| ()) } else { drop(r); Ok(()) };
-                    (h, f)
+                    (h, f, rec)
                 });
                 worker::set_quiet(false);
                 let decisions: Vec<u32> = out.decisions.iter().map(|d| d.1).collect();
@@ -415,7 +459,8 @@ impl C03 {
                             format!("panic on the caller thread: {}", pi.map(|p| format!("{} {}", p.location, p.message)).unwrap_or_default()),
                         ))
                     }
-                    Ok((h, f)) => match (&p.fault, h) {
+                    Ok((_, _, Some(rec))) => Some(viol(comp, "wrong-bytes", "recovery-after-error", rec)),
+                    Ok((h, f, None)) => match (&p.fault, h) {
                         (MtFault::None, Ok(st)) => {
                             c02::record_history_stats(stats, &st);
                             match f {
